@@ -18,6 +18,7 @@ import (
 	"github.com/Eyevinn/mp4ff/aac"
 	"github.com/Eyevinn/mp4ff/av1"
 	"github.com/Eyevinn/mp4ff/avc"
+	mp4bits "github.com/Eyevinn/mp4ff/bits"
 	"github.com/Eyevinn/mp4ff/hevc"
 	"github.com/Eyevinn/mp4ff/sei"
 	"pgregory.net/rapid"
@@ -39,6 +40,7 @@ type esCase struct {
 	P      int              `json:"p"` // small parameter (NAL type, flags, lengths) interpreted by the target
 	Origin string           `json:"origin,omitempty"`
 	pure   bool             // grammar origin without hostile hook and without byte mutation (evidence only)
+	tags   []string         // evidence class labels set by the generator (not part of the case)
 }
 
 // ---------------------------------------------------------------------------------------------
@@ -86,6 +88,7 @@ var targets = map[string]func(d []byte, p int) bool{
 		s, err := avc.ParseSPSNALUnit(d, p&1 == 1)
 		if err == nil && s != nil {
 			_ = avc.CodecString("avc1", s)
+			_, _, _, _ = s.CpbDpbDelaysPresent(), s.PicStructPresent(), s.ChromaArrayType(), s.ConstraintFlags()
 		}
 		return err == nil
 	},
@@ -239,6 +242,73 @@ var targets = map[string]func(d []byte, p int) bool{
 		return err == nil
 	},
 	"sei.ParseCEA608": func(d []byte, p int) bool { _, _, err := sei.ParseCEA608(d); return err == nil },
+	// direct sei-package entry points (DecodeSEIMessage only reaches the typed decoders whose payload type matches
+	// the codec; an application may call any exported decoder with any SEIData)
+	"sei.ExtractCEA608sei": func(d []byte, p int) bool {
+		m, err := sei.ExtractCEA608sei(sei.NewSEIData(sei.SEIUserDataRegisteredITUtT35Type, d))
+		if err == nil && m != nil {
+			useMsgs([]sei.SEIMessage{m})
+		}
+		return err == nil
+	},
+	"sei.DecodeSEIMessage/anytype": func(d []byte, p int) bool {
+		// p: bit0 codec, bits 1..8 payload type 0..255 (every type the package names, and the reserved ones); the
+		// message is then written back with WriteSEIMessages (uses Type/Size/Payload of the decoded message)
+		m, err := sei.DecodeSEIMessage(sei.NewSEIData(uint(p>>1)&0xff, d), sei.Codec(p&1))
+		if err == nil && m != nil {
+			useMsgs([]sei.SEIMessage{m})
+			var b bytes.Buffer
+			_ = sei.WriteSEIMessages(&b, []sei.SEIMessage{m})
+		}
+		return err == nil
+	},
+	"sei.DecodeTypedDirect": func(d []byte, p int) bool {
+		// p: bits 0..2 decoder, bits 3..10 the payload type stored in the SEIData (a decoder does not check it)
+		sd := sei.NewSEIData(uint(p>>3)&0xff, d)
+		var m sei.SEIMessage
+		var err error
+		switch p & 7 {
+		case 0:
+			m, err = sei.DecodePicTimingAvcSEI(sd)
+		case 1:
+			m, err = sei.DecodeUserDataRegisteredSEI(sd)
+		case 2:
+			m, err = sei.DecodeUserDataUnregisteredSEI(sd)
+		case 3:
+			m, err = sei.DecodeTimeCodeSEI(sd)
+		case 4:
+			m, err = sei.DecodeMasteringDisplayColourVolumeSEI(sd)
+		case 5:
+			m, err = sei.DecodeContentLightLevelInformationSEI(sd)
+		case 6:
+			m = sei.DecodeGeneralSEI(sd)
+		default:
+			m = sei.NewRegisteredSEI(sd, sei.ITUData{CountryCode: byte(p >> 11), UserDataTypeCode: byte(p >> 19)})
+			useMsgs([]sei.SEIMessage{sei.NewUnregisteredSEI(sd, d[:min(len(d), p>>11&31)])})
+		}
+		if err == nil && m != nil {
+			useMsgs([]sei.SEIMessage{m})
+			var b bytes.Buffer
+			_ = sei.WriteSEIMessages(&b, []sei.SEIMessage{m})
+		}
+		return err == nil
+	},
+	"sei.DecodeClockTS": func(d []byte, p int) bool {
+		// p: bit0 0 = HEVC time_code clock (DecodeClockTS), 1 = AVC pic_timing clock with time_offset_length p>>1&31
+		br := mp4bits.NewReader(bytes.NewReader(d))
+		if p&1 == 0 {
+			c := sei.DecodeClockTS(br)
+			_ = c.String()
+		} else {
+			c := sei.DecodeClockTSAvc(br, byte(p>>1)&31)
+			_ = c.String()
+			_ = c.NrBits()
+			_, _ = c.MarshalJSON()
+			sw := mp4bits.NewFixedSliceWriter((c.NrBits() + 7) / 8)
+			c.WriteToSliceWriter(sw)
+		}
+		return br.AccError() == nil
+	},
 	"aac.DecodeADTSHeader": func(d []byte, p int) bool {
 		h, _, err := aac.DecodeADTSHeader(bytes.NewReader(d))
 		if err == nil {
@@ -271,8 +341,48 @@ var targetNames []string
 // ---------------------------------------------------------------------------------------------
 // oracle
 
+// Allocation rule 1 (all inputs): cumulative heap allocation of one call <= allocConst + allocPerByte x len(input).
 const allocConst = 4 << 20
 const allocPerByte = 1024
+
+// Allocation rule 2 (inputs shorter than smallInputLen): <= max(smallAllocConst, smallAllocPerByte x len(input)),
+// i.e. 1 MiB. Rule 1 alone lets a count-driven make() of up to 4 MiB per call through for a 20-byte input. What is
+// measured is the cumulative number of heap bytes allocated during the call (not the largest single allocation).
+const smallInputLen = 4096
+const smallAllocConst = 1 << 20
+const smallAllocPerByte = 64
+
+func allocBound(n int) (bound uint64, rule string) {
+	bound, rule = allocConst+allocPerByte*uint64(n), fmt.Sprintf("%d + %d x len", allocConst, allocPerByte)
+	if n < smallInputLen {
+		if b := uint64(max(smallAllocConst, smallAllocPerByte*n)); b < bound {
+			bound, rule = b, fmt.Sprintf("inputs < %d bytes: max(%d, %d x len)", smallInputLen, smallAllocConst, smallAllocPerByte)
+		}
+	}
+	return bound, rule
+}
+
+// Time rule: a case that takes longer than slowBound(len) is run again three times; it fails with key
+// C16|<target>|slow when the median of the three exceeds the bound. (Beyond the 10 s watchdog the process is
+// ended; the driver then runs the case alone in a fresh process, where this rule applies again.)
+func slowBound(n int) time.Duration {
+	return max(2*time.Second, time.Duration(n)*50*time.Microsecond)
+}
+
+func watchBudget(n int) time.Duration { return 10*time.Second + time.Duration(n)*10*time.Microsecond }
+
+// runOnce runs the target once on a private copy of the input under the watchdog.
+func runOnce(fn func(d []byte, p int) bool, data []byte, p int) (returned bool, f *harness.Fail, alloc uint64, el time.Duration) {
+	d := append([]byte{}, data...)
+	harness.StartWatch(watchBudget(len(d)))
+	t0 := time.Now()
+	before := harness.HeapAllocs()
+	f = harness.Guarded(func() *harness.Fail { returned = fn(d, p); return nil })
+	alloc = harness.HeapAllocs() - before
+	el = time.Since(t0)
+	harness.StopWatch()
+	return
+}
 
 func checkES(c esCase) *harness.Fail {
 	loadSeeds() // parameter-set maps used by the slice/PPS/SEI targets
@@ -281,25 +391,55 @@ func checkES(c esCase) *harness.Fail {
 		return harness.Failf("harness|c16|unknown target", "%q", c.Target)
 	}
 	data := []byte(c.Data)
-	pristine := append([]byte{}, data...)
-	harness.StartWatch(10*time.Second + time.Duration(len(data))*10*time.Microsecond)
-	before := harness.HeapAllocs()
-	var returned bool
-	f := harness.Guarded(func() *harness.Fail { returned = fn(data, c.P); return nil })
-	alloc := harness.HeapAllocs() - before
-	harness.StopWatch()
-	lastReturned = returned
+	returned, f, alloc, el := runOnce(fn, data, c.P)
+	lastReturned, lastElapsed = returned, el
 	if f != nil {
 		return f
 	}
-	if alloc > allocConst+allocPerByte*uint64(len(data)) {
-		return harness.Failf("alloc|"+c.Target, "%d bytes allocated for %d input bytes (bound %d + %d x len)", alloc, len(data), allocConst, allocPerByte)
+	if bound, rule := allocBound(len(data)); alloc > bound {
+		// /gc/heap/allocs:bytes is updated when a span leaves a per-P cache, so a call can be charged with objects
+		// allocated before it. Confirm with an exact measurement (runtime.ReadMemStats flushes the caches before
+		// and after) of a second call; one-time initialisation inside the library is thereby not counted either.
+		var f2 *harness.Fail
+		harness.StartWatch(watchBudget(len(data)))
+		alloc2 := harness.AllocDelta(func() {
+			d := append([]byte{}, data...)
+			f2 = harness.Guarded(func() *harness.Fail { fn(d, c.P); return nil })
+		})
+		harness.StopWatch()
+		harness.Rec.Class("alloc-remeasured")
+		if f2 != nil {
+			return f2
+		}
+		if alloc2 > bound {
+			return harness.Failf("alloc|"+c.Target, "%d bytes allocated for %d input bytes (second call: %d; bound %s = %d)", alloc, len(data), alloc2, rule, bound)
+		}
 	}
-	_ = pristine
+	if bound := slowBound(len(data)); el > bound {
+		durs := make([]time.Duration, 3)
+		for i := range durs {
+			_, f3, _, d := runOnce(fn, data, c.P)
+			if f3 != nil {
+				return f3
+			}
+			durs[i] = d
+		}
+		harness.Rec.Class("slow-rerun")
+		harness.Rec.Note(fmt.Sprintf("slow candidate: target %s, %d input bytes, first run %s, reruns %v (bound %s)", c.Target, len(data), el.Round(time.Millisecond), durs, bound))
+		sorted := append([]time.Duration{}, durs...)
+		sort.Slice(sorted, func(i, j int) bool { return sorted[i] < sorted[j] })
+		if sorted[1] > bound {
+			return harness.Failf("C16|"+c.Target+"|slow", "%d input bytes take %s (first run) and %v (three reruns, median %s); bound max(2 s, 50 us per input byte) = %s",
+				len(data), el, durs, sorted[1], bound)
+		}
+	}
 	return nil
 }
 
-var lastReturned bool
+var (
+	lastReturned bool
+	lastElapsed  time.Duration
+)
 
 // ---------------------------------------------------------------------------------------------
 // seeds: real NAL units, config records and headers from the repository's test data
@@ -621,6 +761,12 @@ func seedsFor(target string) [][]byte {
 		return seeds.asc
 	case target == "aac.DecodeADTSHeader":
 		return seeds.adts
+	case target == "sei.ExtractCEA608sei": // the payload of a user_data_registered_itu_t_t35 message carrying cc_data
+		return [][]byte{
+			{0xb5, 0x00, 0x31, 0x47, 0x41, 0x39, 0x34, 0x03, 0xc1, 0xff, 0xfc, 0x80, 0x80, 0xff},
+			{0xb5, 0x00, 0x31, 0x47, 0x41, 0x39, 0x34, 0x03, 0xc2, 0xff, 0xfc, 0x94, 0x2c, 0xfd, 0x80, 0x80, 0xff},
+			{0xb5, 0x00, 0x31, 0x47, 0x41, 0x39, 0x34, 0x03, 0xc0, 0xff, 0xff},
+		}
 	case strings.HasPrefix(target, "sei."):
 		var out [][]byte
 		for _, n := range seeds.avcSEI {
@@ -900,12 +1046,15 @@ func TestES(t *testing.T) {
 	}
 	harness.RunRapid(t, "es", func(rt *rapid.T) {
 		c := genCase(rt)
-		if name := knownShape(&c); name != "" && avoidKnown[name] {
+		raw, _ := json.Marshal(c)
+		// the case is persisted BEFORE anything looks at its bytes: the shape predicates of switched-on library
+		// defects may call library parsers (guardedShape: under the watchdog, panics recovered), so a hang there
+		// ends this process with THIS case as the current one and the driver re-runs it alone through checkES.
+		harness.SetCurrentCase("es", raw)
+		if name := guardedShape(&c); name != "" && avoidKnown[name] {
 			harness.Rec.Exclude(name) // a recorded defect of the unchanged library (see avoidKnown): not executed
 			return
 		}
-		raw, _ := json.Marshal(c)
-		harness.SetCurrentCase("es", raw)
 		f := checkES(c)
 		grammar := strings.HasPrefix(c.Origin, "grammar")
 		nt := lastReturned || grammar || c.Origin == "mutated-seed" || c.Origin == "hostile-sample" || c.Origin == "hostile-bytestream" || c.Origin == "hostile-sei"
@@ -925,6 +1074,17 @@ func TestES(t *testing.T) {
 		} else {
 			cls = append(cls, "returned-error-or-empty")
 		}
+		cls = append(cls, c.tags...)
+		switch { // measured duration of the (first) call
+		case lastElapsed < time.Millisecond:
+			cls = append(cls, "elapsed-lt-1ms")
+		case lastElapsed < 100*time.Millisecond:
+			cls = append(cls, "elapsed-1ms-100ms")
+		case lastElapsed < 2*time.Second:
+			cls = append(cls, "elapsed-100ms-2s")
+		default:
+			cls = append(cls, "elapsed-ge-2s")
+		}
 		harness.Rec.Case(nt, raw, cls...)
 		if nt && harness.Rec.WantSample() && len(c.Data) > 8 && len(c.Data) < 80 {
 			harness.Rec.Sample(map[string]interface{}{"kind": "es", "case": c})
@@ -943,6 +1103,10 @@ func TestSeedsClean(t *testing.T) {
 			c := esCase{Target: name, Data: s, P: 0, Origin: "seed"}
 			raw, _ := json.Marshal(c)
 			harness.SetCurrentCase("es", raw)
+			if shape := guardedShape(&c); shape != "" && avoidKnown[shape] {
+				harness.Rec.Exclude(shape)
+				continue
+			}
 			harness.Rec.Case(true, raw, "origin-seed")
 			harness.ReportDirect(t, "es", c, checkES(c))
 			n++
